@@ -19,6 +19,7 @@ structure CrSess where
   inHyp : Bool := true
   inHypPre : Bool := true             -- … of the state before the last operation
   resumed : Option String := none     -- window of the crash this store was recovered from
+  dead : Bool := false                -- recovered from a power loss of a store without syncing: outside C17
   tainted : Bool := false             -- that image already violated a clause (reported there) or was cut inside a write
   deriving Inhabited
 
@@ -71,6 +72,7 @@ def crashMonStep (w : CrMon) (ws : List String) : CrMon × String :=
   | ["crash", sid, _, _, mode, _] =>
       (match w.lookup sid, parseRec mode obsw with
       | some cs, some r =>
+        if cs.dead then (w, "ok") else
         if cs.tainted then (w, "ok")   -- already reported at the crash this store was recovered from
         else if !cs.inHyp ∨ !cs.inHypPre then (w, "ok")
         else if cs.kind = "filens" ∧ mode = "power" then (w, "ok")   -- C17 is about the store with syncing enabled
@@ -85,7 +87,7 @@ def crashMonStep (w : CrMon) (ws : List String) : CrMon × String :=
           (match parseIter it with
           | some (cls, ms, _) =>
             let r : RecObs := ⟨got.ok, p, c, k, mode, got.sender, got.target, cls, ms, []⟩
-            let bad := if cs.tainted ∨ !cs.inHyp ∨ !cs.inHypPre ∨ (cs.kind = "filens" ∧ mode = "power") then [] else monRecovered cs.pre cs.post cs.inflight (cs.savedPre ++ cs.savedPost) r
+            let bad := if cs.dead ∨ cs.tainted ∨ !cs.inHyp ∨ !cs.inHypPre ∨ (cs.kind = "filens" ∧ mode = "power") then [] else monRecovered cs.pre cs.post cs.inflight (cs.savedPre ++ cs.savedPost) r
             let usePost := decide (ms = values cs.post.msgs)
             let base := if usePost then cs.post else cs.pre
             let spec : AStore := { base with sender := got.sender.toNat, target := got.target.toNat }
@@ -93,7 +95,7 @@ def crashMonStep (w : CrMon) (ws : List String) : CrMon × String :=
             let cs' : CrSess := { cs with pre := spec, post := spec, inflight := none, savedPre := saved, savedPost := saved,
                                           hiPre := (if usePost then cs.hiPost else cs.hiPre), hiPost := (if usePost then cs.hiPost else cs.hiPre),
                                           resumed := (if cs.tainted ∧ !(k == "mid" && c == "write-header") then cs.resumed else some r.windowInner),   -- a tainted store stays attributed to the crash that tainted it (a torn index line dominates)
-                                          inHypPre := cs.inHyp,
+                                          inHypPre := cs.inHyp, dead := cs.dead || (cs.kind == "filens" && mode == "power"),
                                           tainted := cs.tainted || bad.any (· ≠ "counter_neither_before_nor_after") || (k == "mid" && c == "write-header") || (cs.kind == "filens" && mode == "power") }
             (alSet w sid cs', verdict (withCtx r.window bad))
           | none => (w, "bad-op"))
@@ -125,6 +127,7 @@ def crashMonStep (w : CrMon) (ws : List String) : CrMon × String :=
         let phase := match cs.resumed with
           | some win => "{phase=after-recovery," ++ win ++ "}"
           | none => if cs.kind = "sql" then "{phase=sql}" else "{phase=no-crash}"
+        if cs.dead then (alSet w sid cs', "ok") else
         if cs.tainted then
           let bad := match o with
             | .get b e => monForeignRange cs.savedPost b e got.msgs
